@@ -1,6 +1,7 @@
 (* C15 - the function wrapper never serves a stale value and counts every evaluation once.
    This file only restates theorems proved in Proofs/SFProofs.v. *)
-From Coq Require Import List ZArith Bool.
+From Coq Require Import String List ZArith Bool.
+From LBFGSB Require Generated.WrapperSrc.
 From LBFGSB Require Import Base.Res Model.SF Model.SFInst Proofs.SFProofs.
 Import ListNotations.
 Open Scope Z_scope.
@@ -44,6 +45,42 @@ Section C15.
     exact (proj1 (proj2 (update_fun_spec P F G S uf ug stencil fdest fdmode _ _ _ _ HI1 H3))).
   Qed.
 End C15.
+
+(* the wrapper model (Model/SF.v) mirrors these methods of scalar_function.ScalarFunction and closures of its __init__: their
+   normalised source, re-extracted on every run, is what it was when the model was written (the copies returned to the caller,
+   f * scaling_factor and g * scaling_factor, are new arrays: seeded changes C05-d / C17-c replace them by the cached object) *)
+Theorem C15_wrapper_source :
+  WrapperSrc.sf_update_x_src = ["self.x = np.atleast_1d(x).astype(float)";
+  "self.f_updated = False";
+  "self.g_updated = False";
+  "self.H_updated = False"]%string /\
+  WrapperSrc.sf_update_fun_src = ["if not self.f_updated: self._update_fun_impl() self.f_updated = True"]%string /\
+  WrapperSrc.sf_update_grad_src = ["if not self.g_updated: self._update_grad_impl() self.g_updated = True"]%string /\
+  WrapperSrc.sf_fun_src = ["if not np.array_equal(x, self.x): self.update_x(x)";
+  "self._update_fun()";
+  "return self.f * self.scaling_factor"]%string /\
+  WrapperSrc.sf_grad_src = ["if not np.array_equal(x, self.x): self.update_x(x)";
+  "self._update_grad()";
+  "return self.g * self.scaling_factor"]%string /\
+  WrapperSrc.sf_fun_and_grad_src = ["if not np.array_equal(x, self.x): self.update_x(x)";
+  "self._update_fun()";
+  "self._update_grad()";
+  "return (self.f * self.scaling_factor, self.g * self.scaling_factor)"]%string /\
+  WrapperSrc.sf_init_fun_wrapped_src = ["self.nfev += 1";
+  "fx = fun(np.copy(x), *args)";
+  "if not np.isscalar(fx): try: fx = np.asarray(fx).item() except (TypeError, ValueError) as e: raise ValueError('The user-provided objective function must return a scalar value.') from e";
+  "if fx < self._lowest_f: self._lowest_x = x self._lowest_f = fx";
+  "return fx"]%string /\
+  WrapperSrc.sf_init_update_fun_src = ["self.f = fun_wrapped(self.x)"]%string /\
+  WrapperSrc.sf_init_grad_wrapped_src = ["self.ngev += 1";
+  "return np.atleast_1d(grad(np.copy(x), *args))"]%string /\
+  WrapperSrc.sf_init_update_grad_1_src = ["self.g = grad_wrapped(self.x)"]%string /\
+  WrapperSrc.sf_init_update_grad_2_src = ["self._update_fun()";
+  "self.ngev += 1";
+  "self.g = approx_derivative(fun_wrapped, self.x, f0=self.f, **finite_diff_options)";
+  "lb, ub = finite_diff_options['bounds']";
+  "self.g[np.broadcast_to(np.equal(lb, ub), self.g.shape)] = 0.0"]%string.
+Proof. repeat split; reflexivity. Qed.
 
 Print Assumptions C15_wrapper.
 Print Assumptions C15_no_reevaluation.
